@@ -120,9 +120,13 @@ CONFIG_EABF = _EXT_CV + _ABF % ""
 CONFIG_EABF_NOCZ = _EXT_CV + _ABF % "  CZARestimator off\n"
 CONFIG_EABF_HARM = _EXT_CV + _ABF % "" + _HARM
 CONFIG_HIST = CONFIG_GRID[:CONFIG_GRID.index("metadynamics {")]
+# shared ABF (multiple-walker): needs a replica interface (vsim `replicas 0 2 -1 -1`: two replicas, no channel; sharedFreq
+# is larger than the run, so nothing is ever exchanged); its state has local_* grids and the OPTIONAL last_* section
+CONFIG_SABF = _EXT_CV + _ABF % "  shared on\n  sharedFreq 1000\n  CZARestimator off\n"
 CONFIGS = {"base": CONFIG, "grid": CONFIG_GRID, "extra": CONFIG_EXTRA, "eabf": CONFIG_EABF, "eabf_nocz": CONFIG_EABF_NOCZ,
-           "eabf_harm": CONFIG_EABF_HARM, "hist": CONFIG_HIST}
-PRELUDE = {"extra": ["temperature 300"], "eabf": ["temperature 300"], "eabf_nocz": ["temperature 300"], "eabf_harm": ["temperature 300"]}
+           "eabf_harm": CONFIG_EABF_HARM, "hist": CONFIG_HIST, "sabf": CONFIG_SABF}
+PRELUDE = {"extra": ["temperature 300"], "eabf": ["temperature 300"], "eabf_nocz": ["temperature 300"], "eabf_harm": ["temperature 300"],
+           "sabf": ["temperature 300", "replicas 0 2 -1 -1"]}
 NBINS = 4   # lowerBoundary 0, upperBoundary 4, width 1
 
 
@@ -821,6 +825,9 @@ def tx_line(text, config="base"):
         cfg = "cv:%d b:%d.%d.%d.0.%s" % (wid("d"), wid("abf"), wid("abf"), wid("a"), lay)
         if config == "eabf_harm":
             cfg += ",%d.%d.%d.0" % (wid("restraint"), wid("harmonic"), wid("h"))
+    elif config == "sabf":
+        lay = "+".join("k%d+w%d" % (wid(k), NBINS) for k in ("samples", "gradient", "local_samples", "local_gradient", "last_samples", "last_gradient"))
+        cfg = "cv:%d b:%d.%d.%d.0.%s" % (wid("d"), wid("abf"), wid("abf"), wid("a"), lay)
     elif config == "hist":
         cfg = "cv:%d b:%d.%d.%d.0.k%d+w%d" % (wid("d"), wid("histogram"), wid("histogram"), wid("hi"), wid("grid"), NBINS)
     elif config == "extra":
@@ -892,7 +899,7 @@ def other_entry_points(run, vsim, d, quick, cfgname, fmt, data, verdicts, r):
 
 
 def run_damage_grid(run, vsim, d, quick, model):
-    for cfgname in ("grid", "extra", "eabf", "eabf_nocz", "eabf_harm", "hist"):
+    for cfgname in ("grid", "extra", "eabf", "eabf_nocz", "eabf_harm", "hist", "sabf"):
         run_damage_config(run, vsim, d, quick, model, cfgname)
 
 
@@ -981,6 +988,9 @@ def run_damage_config(run, vsim, d, quick, model, cfgname):
         if not (rc >= 128 or rc == 124 or rc < 0 or ld is None) and ld[0] == "ok":
             nacc += 1
             sig = "load.binary-prefix-accepted:at-hill-boundary" if cut in hill_starts else "load.binary-prefix-accepted:" + cfgname
+            if cfgname == "sabf" and binary[cut:cut + 20] == struct.pack("<Q", 12) + b"last_samples":
+                # the file ends exactly where the optional section (absent from older states) would start
+                sig = "load.binary-prefix-accepted:before-optional-last_samples-section"
             run.violation(sig, "a binary state (%s configuration) cut at byte %d of %d loads without any error" % (cfgname, cut, nb),
                           {"kind": "load", "format": "binary", "config": cfgname, "cut": cut})
     nother = other_entry_points(run, vsim, d, quick, cfgname, "text", text, verdicts, r)
